@@ -429,7 +429,12 @@ func hostileParse(s string) vkit.Result {
 	case "err":
 		return vkit.OK(true, "hostile-error")
 	}
-	return vkit.Failf("license.Parse(%q): %s", s, out)
+	r := vkit.Failf("license.Parse(%q): %s", s, out)
+	if (strings.HasSuffix(s, ":2") || strings.HasSuffix(s, ":3")) && (strings.Contains(string(out), "makeslice") || strings.Contains(string(out), "out of range")) {
+		// the same trusted length prefix inside kelindar/binary: a length beyond the allocator's limit panics instead of exhausting memory
+		r.Finding = oomFinding
+	}
+	return r
 }
 
 func TestParseHostile(t *testing.T) {
